@@ -11,9 +11,10 @@ scripts (what a correct server says, in order); `flow.take k` is the flow cut af
 `nC os` / `nD os` count the `connected` / `disconnected` signals in an output list.  `isConnected s` is what
 `QXmppClient::isConnected()` returns (socket connected ∧ session flag).
 
-Four parts of the property do NOT hold on today's code; each has a `C10_defect_*` theorem with an explicit witness that the
-harness replays on the real client: legacy (XEP-0078) login never completes, `bind2Bound` survives a cut,
-see-other-host during a session keeps the session flag, see-other-host on a TLS link hangs the reconnect.
+History.  Before the repository fixes 7771c2d (XEP-0078 authentication can never complete), 7a677f2 (a bind2 result of an
+aborted attempt leaks into the next session) and e363fe9 (see-other-host leaves a stale session and hangs on TLS
+connections) four parts of the property did not hold and this file carried `C10_defect_*` theorems; their witness scripts are
+kept below as examples of what the repaired code does (and are replayed first by the harness).
 -/
 namespace Qx.C10
 open Qx.C04
@@ -63,47 +64,36 @@ theorem request_while_disconnected_fails (s : St) (hc : s.conn ≠ .connected) (
 
 /-! ### the next attempt starts from scratch -/
 
-/-- **Per-connection reset, except one field (`…_partial`).**  After ANY history with a live connection, cut + reconnect
-puts every negotiation field back to its initial value: listener, stream id/version seen, encrypted, header cache, parser
-state, authenticated, session flag, stream-management enabled/resumed, ack manager, redirect target.
-Full statement (FALSE, see `C10_defect_bind2bound_survives_cut`): the same including `bind2Bound`.
-Not reset by design and overwritten by the next features element before any use: `bindAvail`, `smAvail`, `csiAvail`
-(`csiAvail` is read without a fresh features element only by an inline-resumed SASL2 session). -/
-theorem per_connection_reset_partial (cfg : Cfg) (script : List Ev)
+/-- **Per-connection reset.**  After ANY history with a live connection, cut + reconnect puts EVERY negotiation field back
+to its initial value: listener, stream id/version seen, encrypted, header cache, parser state, authenticated, session flag,
+stream-management enabled/resumed, ack manager, redirect target, and the bind2 result.
+(Deliberately kept across connections: resumption data, outstanding requests of a resumable stream, unacknowledged stanzas,
+the CSI state; `bindAvail`, `smAvail`, `csiAvail` are overwritten by the next features element before any use.) -/
+theorem per_connection_reset (cfg : Cfg) (script : List Ev)
     (hc : (run (init cfg) script).1.conn = .connected) :
-    negView (run (run (init cfg) script).1 cutAndReconnect).1 = negView (init cfg) := by
+    negView (run (run (init cfg) script).1 cutAndReconnect).1 = negView (init cfg) ∧
+    (run (run (init cfg) script).1 cutAndReconnect).1.bind2Bound = (init cfg).bind2Bound := by
   have hred : (run (init cfg) script).1.redirect = false := run_red script (init cfg) rfl
   rw [cut_reconnect_state _ hc hred]
   generalize (run (init cfg) script).1 = s at hred
-  simp only [negView, init, hred]
+  simp [negView, init, hred]
 
-/-- SASL2 with bind2, cut right after `<success><bound/></success>` -/
+/-- SASL2 with bind2, cut right after `<success><bound/></success>` (the former witness of the `bind2Bound` leak) -/
 def witnessBind2Cut : List Ev :=
   [.connectToServer, .socketConnected, .recv (.header true true),
    .recv (.features { sasl2 := some { mech := .plain, bind2 := true, bind2Ext := true, fast := false, smInline := false } }),
    .recv (.s2Success .plain .none false true)]
-
-/-- **Defect: `bind2Bound` survives the cut.**  The full per-connection reset is false: after `witnessBind2Cut`, cut and
-reconnect, `bind2Bound` is still set although nothing was bound on the new connection. -/
-theorem C10_defect_bind2bound_survives_cut :
-    ¬ (∀ (cfg : Cfg) (script : List Ev), (run (init cfg) script).1.conn = .connected →
-        (run (run (init cfg) script).1 cutAndReconnect).1.bind2Bound = (init cfg).bind2Bound) := by
-  intro h
-  have := h { plainOk := true } witnessBind2Cut (by decide)
-  revert this
-  decide
 
 /-- SASL + classic bind, the server offers client state indication after authentication -/
 def flowSaslBindCsi : List Ev :=
   [.recv (.header true true), .recv (.features { mechs := some .plain }), .recv (.saslSuccess true),
    .recv (.header true true), .recv (.features { bind := true, csi := true }), .recv (.iq (.bindResult .ok))]
 
-/-- …and it is observable: an inactive client tells a fresh server `<inactive/>` when the session starts, but after the
-leaked `bind2Bound` it does not (it believes bind2 already carried the state), and `SessionBegin.bind2Used` is wrong. -/
-theorem C10_defect_stale_bind2_changes_next_session :
+/-- after the former leak scenario an inactive client tells the new server `<inactive/>` exactly as a fresh client does -/
+example :
     let cfg : Cfg := { plainOk := true, inactive := true }
     .sent .csiInactive .clear ∈ (run (init cfg) ([.connectToServer, .socketConnected] ++ flowSaslBindCsi)).2 ∧
-    .sent .csiInactive .clear ∉ (run (init cfg) (witnessBind2Cut ++ cutAndReconnect ++ flowSaslBindCsi)).2 := by
+    .sent .csiInactive .clear ∈ (run (init cfg) (witnessBind2Cut ++ cutAndReconnect ++ flowSaslBindCsi)).2 := by
   decide
 
 /-- **The next attempt succeeds (SASL + bind).**  After ANY history with a live connection: cut, reconnect, and a conforming
@@ -161,6 +151,28 @@ theorem next_attempt_succeeds_sasl2_bind2 (cfg : Cfg) (script : List Ev)
   dsimp only
   exact ⟨List.mem_append_right _ a.1, isConnected_of _ a.2.conn a.2.sess, a.2.auth⟩
 
+/-- **The next attempt succeeds (legacy XEP-0078 login against a pre-1.0 server)** — for every configuration that allows
+legacy authentication and does not require TLS; nothing is reported before the last element, which reports `connected`
+exactly once. -/
+theorem next_attempt_succeeds_legacy (cfg : Cfg) (script : List Ev)
+    (hc : (run (init cfg) script).1.conn = .connected)
+    (hns : cfg.useNonSasl = true) (htls : cfg.tls ≠ .required) :
+    .sig .connected ∈ (run (run (init cfg) script).1 (cutAndReconnect ++ flowLegacy)).2 ∧
+    isConnected (run (run (init cfg) script).1 (cutAndReconnect ++ flowLegacy)).1 = true ∧
+    (run (run (init cfg) script).1 (cutAndReconnect ++ flowLegacy)).1.authenticated = true ∧
+    nC (run (run (run (init cfg) script).1 cutAndReconnect).1 flowLegacy).2 = 1 := by
+  have hred : (run (init cfg) script).1.redirect = false := run_red script (init cfg) rfl
+  have hcfg : (run (init cfg) script).1.cfg = cfg := run_cfg script (init cfg)
+  have h0 : Ph cfg false .idle false false (run (run (init cfg) script).1 cutAndReconnect).1 := by
+    have := ph_after_cut _ hc hred
+    rwa [hcfg] at this
+  have hv : (run (run (init cfg) script).1 cutAndReconnect).1.streamVersionSet = false := by
+    rw [cut_reconnect_state _ hc hred]
+  have a := flowLegacy_connects h0 hv hns (Or.inr htls)
+  rw [run_append]
+  dsimp only
+  exact ⟨List.mem_append_right _ a.1, isConnected_of _ a.2.1.conn a.2.1.sess, a.2.1.auth, a.2.2.1⟩
+
 /-! ### `connected` once per connection, and only at the end -/
 
 /-- **Every cut point of the conforming script.**  After ANY history, cut and reconnect: for every `k`, after the first `k`
@@ -217,14 +229,14 @@ theorem connected_only_when_done (cfg : Cfg) (script : List Ev) (e : Ev) :
   · exact ⟨by omega, fun h1 => by omega⟩
   · exact ⟨by omega, fun _ => ⟨h.2.1, h.2.2.1, h.2.2.2, isConnected_of _ h.2.2.2 h.2.2.1⟩⟩
 
-/-- **`connected` at most once per connection — every history of a server that sends no features into an established
-session (`noFeaturesInSession`, the only conformance hypothesis).**  Scan everything the client did, in order (`alt false`):
-`connected` is never reported while a session is already reported open, where only `disconnected` closes a session.  By
-`disconnected_only_when_socket_gone` a `disconnected` is reported only by a step that loses the socket, so two `connected`
-signals always belong to different connections.  (A hostile server that sends features again into a session does get a
-second `connected` on the same connection: `Q_ASSERT(!d->sessionStarted)` is compiled out in release builds.) -/
+/-- **`connected` at most once per connection — every history of a server that does not restart negotiation inside an
+established session** (`noNegotiationInSession`: no stream header and no stream features while a session is established; the
+only conformance hypothesis).  Scan everything the client did, in order (`alt false`): `connected` is never reported while a
+session is already reported open, where only `disconnected` closes a session.  By `disconnected_only_when_socket_gone` a
+`disconnected` is reported only by a step that loses the socket, so two `connected` signals always belong to different
+connections.  (The hypothesis is necessary: `openSession` is not guarded, its Q_ASSERT is compiled out in release builds.) -/
 theorem connected_at_most_once_per_connection (cfg : Cfg) (script : List Ev)
-    (hconf : Along noFeaturesInSession (init cfg) script) :
+    (hconf : Along noNegotiationInSession (init cfg) script) :
     alt false (run (init cfg) script).2 = true :=
   run_alt script (init cfg) (by intro h; simp [init] at h) hconf
 
@@ -235,52 +247,58 @@ theorem disconnected_only_when_socket_gone (cfg : Cfg) (script : List Ev) (e : E
     (step (run (init cfg) script).1 e).1.sessionStarted = false :=
   step_disconnected_means_socket_gone _ e h
 
-/-- the hypothesis is necessary: features sent into an established session open it a second time -/
+/-- **`isConnected()` means a session was really established on the current connection — every history, no hypothesis.**
+Whenever `isConnected()` is true, the last session signal the client reported is `connected` (no `disconnected` since), and
+conversely the session flag is never set while the socket is not connected. -/
+theorem isConnected_means_session_established (cfg : Cfg) (script : List Ev) :
+    (isConnected (run (init cfg) script).1 = true → altEnd false (run (init cfg) script).2 = true) ∧
+    ((run (init cfg) script).1.sessionStarted = true → (run (init cfg) script).1.conn = .connected) := by
+  constructor
+  · intro h
+    have := run_altEnd script (init cfg)
+    rw [show (init cfg).sessionStarted = false from rfl] at this
+    rw [this]
+    simp [isConnected] at h
+    exact h.2
+  · exact run_minv script (init cfg) (by intro h; simp [init] at h)
+
+/-- the hypothesis of `connected_at_most_once_per_connection` is necessary: features sent into an established session open it
+a second time -/
 example : alt false (run (init { plainOk := true })
     ([.connectToServer, .socketConnected] ++ flowSaslBind ++ [.recv (.features {})])).2 = false := by decide
 
 /-- …and it is met by conforming histories, e.g. session, cut, reconnect, session -/
-example : Along noFeaturesInSession (init { plainOk := true })
+example : Along noNegotiationInSession (init { plainOk := true })
     ([.connectToServer, .socketConnected] ++ flowSaslBind ++ cutAndReconnect ++ flowSaslBind) := by
-  simp [Along, noFeaturesInSession, flowSaslBind, cutAndReconnect]
+  simp [Along, noNegotiationInSession, flowSaslBind, cutAndReconnect]
   decide
 
-/-! ### what does not hold today -/
+/-! ### the former witnesses, on the repaired code -/
 
-/-- **Defect: legacy (XEP-0078) login never completes.**  For every configuration, the conforming pre-1.0 script (header
-without version, field offer, `<iq type='result'/>` for the password) never produces `connected`: the manager that sent the
-password is replaced by the idle listener before the result arrives. -/
-theorem C10_defect_legacy_auth_never_completes (cfg : Cfg) :
-    nC (run (init cfg) ([.connectToServer, .socketConnected] ++ flowLegacy)).2 = 0 ∧
-    (run (init cfg) ([.connectToServer, .socketConnected] ++ flowLegacy)).1.sessionStarted = false := by
-  cases hns : cfg.useNonSasl <;> cases hp : cfg.nsPlain <;>
-    simp [flowLegacy, run, step, init, recv, handleStart, handleStream, startNonSaslAuth, dispatch, nonSaslHandle,
-      idleHandle, hns, hp, send]
+/-- legacy login completes for every configuration that allows it without TLS (former `C10_defect_legacy_auth_never_completes`) -/
+example : nC (run (init {}) ([.connectToServer, .socketConnected] ++ flowLegacy)).2 = 1 ∧
+    isConnected (run (init {}) ([.connectToServer, .socketConnected] ++ flowLegacy)).1 = true := by decide
 
 /-- a session is established, then the server redirects (see-other-host) and the new TCP connection comes up -/
 def witnessRedirectInSession : List Ev :=
   [.connectToServer, .socketConnected] ++ flowSaslBind ++ [.recv (.streamError true), .socketConnected]
 
-/-- **Defect: see-other-host during a session keeps the session flag.**  After `witnessRedirectInSession` the client is on a
-brand-new connection on which nothing has been negotiated (not authenticated), no `disconnected` was ever signalled, yet
-`isConnected()` is true. -/
-theorem C10_defect_redirect_in_session_reports_connected :
+/-- see-other-host during a session now ends the session: `disconnected` is signalled and `isConnected()` is false while the
+new connection negotiates -/
+example :
     let r := run (init { plainOk := true }) witnessRedirectInSession
-    isConnected r.1 = true ∧ r.1.authenticated = false ∧ nD r.2 = 0 := by
+    isConnected r.1 = false ∧ r.1.authenticated = false ∧ nD r.2 = 1 ∧ r.1.conn = .connected := by
   decide
 
-/-- STARTTLS, then see-other-host over the encrypted link, then the environment tries to complete the new connection and a
-conforming server is ready to talk -/
+/-- STARTTLS, then see-other-host over the encrypted link, then the new connection and a conforming server -/
 def witnessRedirectOverTls : List Ev :=
   [.connectToServer, .socketConnected, .recv (.header true true), .recv (.features { tls := .optional }),
    .recv (.proceed true), .recv (.header true true), .recv (.streamError true), .socketConnected] ++ flowTlsSaslBind
 
-/-- **Defect: see-other-host on a TLS link hangs the reconnect.**  The redirected attempt never opens a stream: no
-`connected`, the socket stays in the connecting state for ever, and even a cut does not bring the client back to
-disconnected. -/
-theorem C10_defect_redirect_over_tls_hangs :
-    let r := run (init { plainOk := true }) (witnessRedirectOverTls ++ [.socketDisconnected])
-    nC r.2 = 0 ∧ r.1.conn = .hung ∧ r.1.conn ≠ .disconnected := by
+/-- see-other-host on a TLS link: the redirected attempt negotiates from scratch and succeeds -/
+example :
+    let r := run (init { plainOk := true }) witnessRedirectOverTls
+    nC r.2 = 1 ∧ isConnected r.1 = true ∧ r.1.encrypted = true := by
   decide
 
 /-! ### Non-vacuity -/
